@@ -5,6 +5,7 @@ import (
 	"crypto/tls"
 	"fmt"
 	"io"
+	"math"
 	"net"
 	"os"
 	"strconv"
@@ -39,6 +40,10 @@ func (s State) String() string {
 	}
 	return "Unknown"
 }
+
+// maxLineLength is the longest message line sendMessage will relay; bufio.Scanner otherwise
+// fails on lines over 64KiB.
+const maxLineLength = math.MaxInt32
 
 var commands = map[string]bool{
 	"QUIT": true,
@@ -487,6 +492,7 @@ func (s *Session) sendMessage(msg storage.Message) {
 	}()
 
 	scanner := bufio.NewScanner(reader)
+	scanner.Buffer(nil, maxLineLength)
 	for scanner.Scan() {
 		line := scanner.Text()
 		// Lines starting with . must be prefixed with another .
@@ -520,6 +526,7 @@ func (s *Session) sendMessageTop(msg storage.Message, lineCount int) {
 	}()
 
 	scanner := bufio.NewScanner(reader)
+	scanner.Buffer(nil, maxLineLength)
 	inBody := false
 	for scanner.Scan() {
 		line := scanner.Text()
